@@ -461,12 +461,14 @@ class Recorder:
         self.events.append(ev)
         return ev
 
-    def do(self, op, arg=''):
+    def do(self, op, arg='', taps=True):
         """ op in construct|find_slices|find_groups|find_layers|metarize|metar_msg """
         global _taps
         from ampycloud.data import CeiloChunk
+        use_taps = taps
         taps = {'_cbh_on': bool(self.desc.get('tap_cbh'))}
-        _taps = taps
+        if use_taps:
+            _taps = taps
         res, exc, msg = 'ok', '', None
         try:
             with warnings.catch_warnings():
@@ -498,7 +500,8 @@ class Recorder:
             res, exc = 'exc', exc_name(e)
             self.trace.setdefault('tb', []).append(traceback.format_exc(limit=6)[-1500:])
         finally:
-            _taps = None
+            if use_taps:
+                _taps = None
         taps.pop('_cbh_on', None)
         return self._record(op, arg, res, exc, msg, taps)
 
